@@ -322,6 +322,11 @@ def _neighbours(t):
         yield (tag, t[2], t[1]), 'comparison reversed'
     if tag in ('Eq', 'NotEq') and len(t) == 3:
         yield (('NotEq' if tag == 'Eq' else 'Eq'), t[1], t[2]), 'equality test negated'
+    if tag == 'Eq' and len(t) == 3:
+        # an exact comparison replaced by a test with the library's default tolerances (rtol 1e-5 / 1e-9, atol 1e-8)
+        for fn_ in ('np.isclose', 'np.allclose', 'math.isclose'):
+            for a_, b_ in ((t[1], t[2]), (t[2], t[1])):
+                yield ('C', _name_tree(fn_), (a_, b_), ()), 'exact equality replaced by the tolerance test %s' % fn_
     if tag in ('Is', 'IsNot') and len(t) == 3:
         yield (('IsNot' if tag == 'Is' else 'Is'), t[1], t[2]), 'identity test negated'
     if tag in ('In', 'NotIn') and len(t) == 3:
